@@ -179,6 +179,42 @@ Theorem C12_scipy_plain_free_entries_within_bounds :
   free_within fx (dflt_bounds lower (length p0)) (dflt_bounds upper (length p0)) (w_x w).
 Proof. exact scipy_plain_free_within. Qed.
 
+(** *** every model evaluation respects the bounds the user gave -- both lists, only lower_bound, only upper_bound, single
+        entries: an absent list is a list of absent bounds ([dflt_bounds]) -- for the wrappers that leave the bounds to the
+        optimiser, from the box part of the contract alone (no assumption on which point is returned) *)
+Theorem C12_scipy_plain_evaluations_within_bounds :
+  forall (ll_multinom ll_plain : list R -> option R) cfg (O : optimiser R) p0 lower upper fx multinom s w d0,
+  wc_oracle_bounds cfg = BPlain -> wc_obj_log cfg = false -> wc_start_log cfg = false ->
+  scipy_wrapper ll_multinom ll_plain cfg O p0 lower upper (Some fx) multinom s = Some w ->
+  project_down p0 (Some fx) = Some d0 ->
+  Forall (fun x => box_ok (w_lo w) (w_hi w) x = true /\ length x = length (w_start w)) (o_trace (w_oracle w)) ->
+  Forall (free_within fx (dflt_bounds lower (length p0)) (dflt_bounds upper (length p0))) (w_evals w).
+Proof. exact scipy_plain_evals_within. Qed.
+Print Assumptions C12_scipy_plain_evaluations_within_bounds.
+
+Theorem C12_opt_evaluations_within_bounds :
+  forall (ll_multinom ll_plain : list R -> option R) repaired replb (O : optimiser R) p0 lower upper fx multinom lg w d0,
+  opt_gen ll_multinom ll_plain repaired replb O p0 lower upper (Some fx) multinom lg = Some w ->
+  project_down p0 (Some fx) = Some d0 ->
+  (lg = true -> Forall pos_opt (dflt_bounds lower (length p0)) /\ Forall pos_opt (dflt_bounds upper (length p0))) ->
+  Forall (fun x => box_ok (w_lo w) (w_hi w) x = true /\ length x = length (w_start w)) (o_trace (w_oracle w)) ->
+  Forall (free_within fx (dflt_bounds lower (length p0)) (dflt_bounds upper (length p0))) (w_evals w).
+Proof. exact opt_evals_within. Qed.
+Print Assumptions C12_opt_evaluations_within_bounds.
+
+(** the scripted optimiser of the keyword-combination stream moves every proposal onto the box it is handed: it honours the
+    contract for EVERY script, proposals beyond the bounds included (so that a bound the wrapper does not hand over shows as
+    a model evaluation beyond it) *)
+Theorem C12_clipping_script_honours_contract : forall maximize props lo hi x0 f,
+  box_wf lo hi -> box_ok lo hi x0 = true -> Forall (fun x => length x = length x0) props ->
+  contract maximize lo hi x0 f (scripted_clip maximize props None lo hi x0 f).
+Proof. exact scripted_clip_honours_contract. Qed.
+Print Assumptions C12_clipping_script_honours_contract.
+
+Theorem C12_clipped_point_in_box : forall lo hi x, box_wf lo hi -> box_ok lo hi (clip lo hi x) = true.
+Proof. exact clip_box_ok. Qed.
+Print Assumptions C12_clipped_point_in_box.
+
 (** *** optimize_grid *)
 Theorem C12_grid_contract :
   forall (ll_multinom ll_plain : list R -> option R) repaired (O : grid_optimiser R) grid fixed multinom full w,
